@@ -24,18 +24,19 @@ type errSpec struct {
 }
 
 type docSpec struct {
-	sc       schemaSpec
-	dataKind string // nil, resource, soft-collection, wrapper-collection, resources, identifier, identifiers, nil-identifiers
-	data     []resSpec
-	colType  string
-	idents   []jsonapi.Identifier
-	included []resSpec
-	relData  map[string][]string
-	meta     *jnode // object or nil
-	errors   []errSpec
-	prepath  string
-	fields   map[string][]string
-	urlFrags []string
+	sc        schemaSpec
+	dataKind  string // nil, resource, soft-collection, wrapper-collection, resources, identifier, identifiers, nil-identifiers
+	data      []resSpec
+	colType   string
+	idents    []jsonapi.Identifier
+	included  []resSpec
+	relData   map[string][]string
+	meta      *jnode // object or nil
+	errors    []errSpec
+	prepath   string
+	fields    map[string][]string
+	urlFrags  []string
+	sortRules []string // sorting rules of the URL (they show in the self link of collection URLs)
 }
 
 func (d docSpec) buildRes(rs resSpec) jsonapi.Resource {
@@ -112,7 +113,13 @@ func (d docSpec) build() (*jsonapi.Document, *jsonapi.URL) {
 	for k, v := range d.fields {
 		fields[k] = append([]string{}, v...)
 	}
+	if d.fields == nil {
+		fields = nil // a URL written by hand without any selection
+	}
 	u := &jsonapi.URL{Fragments: d.urlFrags, IsCol: len(d.urlFrags) == 1, Params: &jsonapi.Params{Fields: fields}}
+	if d.sortRules != nil {
+		u.Params.SortingRules = append([]string{}, d.sortRules...)
+	}
 	return doc, u
 }
 
@@ -172,6 +179,9 @@ func (d docSpec) gallina() string {
 func (d docSpec) desc() string {
 	var parts []string
 	parts = append(parts, "data="+d.dataKind)
+	if d.sortRules != nil {
+		parts = append(parts, fmt.Sprintf("sort=%q", d.sortRules))
+	}
 	for _, rs := range d.data {
 		var o []string
 		for _, op := range rs.ops {
@@ -381,7 +391,14 @@ func randDoc(r *rng) docSpec {
 		d.errors = randErrors(r)
 	}
 	d.fields = randFieldSel(r, sc)
+	if r.chance(1, 12) {
+		d.fields = nil
+	}
 	d.relData = randRelData(r, sc)
+	if len(d.urlFrags) == 1 && r.chance(1, 3) {
+		// rules whose names the self link must escape
+		d.sortRules = pick(r, [][]string{{"-created at", "id"}, {"é", "-a+b"}, {"a&b=c"}, {"string", "-int"}, {}})
+	}
 	return d
 }
 
